@@ -17,6 +17,8 @@ echo "== demo on changed tree"
 (cd "$WT" && PYTHONPATH="$WT" /venv/bin/python "$D/demo.py" >/tmp/seedtest.demo.$$ 2>&1); rc=$?; tail -3 /tmp/seedtest.demo.$$; rm -f /tmp/seedtest.demo.$$; echo "   exit=$rc (want 1)"
 git -C /repo apply "$D/patch.diff" || exit 7
 for c in "$@"; do
+  cp /verif/evidence/$c.json "$WT.$c.evidence" 2>/dev/null   # evidence is only ever kept from runs on the unchanged tree
   echo "== check $c ($TIER) on the changed tree"
   (cd /verif && timeout 3000 ./check "$c" --tier "$TIER" 2>&1 | grep -E "VIOLATION|KNOWN|INCONCLUSIVE|HARNESS|what:|^\[" | cut -c1-330 | head -12)
+  [ -f "$WT.$c.evidence" ] && mv "$WT.$c.evidence" /verif/evidence/$c.json
 done
